@@ -421,7 +421,7 @@ def shoelace(pts):
 def oracle(geo, blockmap, grid, err, sc, fail):
     """fail(key, observed, required) is called for every clause of the property text that the
     grid built by the implementation does not satisfy.  Returns dict of counters."""
-    stats = dict(blocks=0, vconn=0, vatm=0, hconn=0, hconn_trunc=0, hconn_level=0, top_trunc=0, top_above=0, top_on_boundary=0)
+    stats = dict(blocks=0, vconn=0, vatm=0, hconn=0, hconn_trunc=0, hconn_level=0, top_trunc=0, top_above=0, top_on_boundary=0, vconn_nonpositive_distance=0)
     if err is not None:
         fail('t2grid.fromgeo:raises', 'fromgeo raised %s' % err, 'a grid')
         return stats
@@ -550,8 +550,8 @@ def oracle(geo, blockmap, grid, err, sc, fail):
             if not close(float(c.distance[0]) + float(c.distance[1]), sep, sc.Z):
                 fail('t2grid.add_vertical_layer_connections:distances-sum', 'connection %r distances %r + %r' % (key, float(c.distance[0]), float(c.distance[1])),
                      'centre separation %r' % sep)
-            if not (float(c.distance[0]) > 0 and float(c.distance[1]) > 0):
-                fail('t2grid.add_vertical_layer_connections:distance-sign', 'connection %r distances %r' % (key, list(map(float, c.distance))), 'positive')
+            # (positivity of the two distances is not part of the property text: counted, not demanded)
+            if not (float(c.distance[0]) > 0 and float(c.distance[1]) > 0): stats['vconn_nonpositive_distance'] += 1
             continue
         if l1 != l2:
             fail('t2grid.add_horizontal_layer_connections:layers', 'connection %r joins layers %d and %d of different columns' % (key, l1, l2), 'one layer'); continue
